@@ -298,7 +298,7 @@ func checkC13(c *km.Ctx) {
 				n++
 				st := c.F.At(ci)
 				schemeOK := st.All(func(k km.Conj) bool { return s.Holds(k, https) && s.Holds(k, parseOK) })
-				r.Add("R-C13-4", km.FuncName(fn), "host decided by the shared predicate", posOf(c, ci), "hostnameInDomain(parse(param).Hostname(), configured domain) after parse ok ∧ scheme == https", sprintf("host=%v domain=true https=%v (through %s)", hostOK, schemeOK, g.Name()), hostOK && schemeOK)
+				r.Add("R-C13-4", km.FuncName(fn), "host decided by the shared predicate", posOf(c, ci), "hostnameInDomain(parse(param).Hostname(), configured domain) after parse ok ∧ scheme == https", sprintf("host=%v domain=true https=%v (through %s)", hostOK, schemeOK, km.NameOf(g)), hostOK && schemeOK)
 			}
 		}
 		if n == 0 {
